@@ -470,47 +470,58 @@ def namesMismatch : List Series.Entry → List Series.Entry → Bool
   | s :: ss, a :: as => components s.name != components a.name || namesMismatch ss as
   | _, _ => false
 
-/-- `cmd_push` with the single-threaded driver -/
-def push (cfg : Cfg) (w : World) : Outcome × World :=
-  match w.fs.readFile seriesKey with
-  | .error _ => (.error, w)
+/-- what `cmd_push` decides before anything is applied -/
+inductive Plan
+  | refuse                                  -- exit 1 with a message, nothing touched
+  | nothingToDo                             -- "All patches applied."
+  | apply (range : List Series.Entry)
+deriving Repr
+
+/-- the first part of `cmd_push`: read `series` and `.pc/applied-patches`, check that the applied
+patches are a prefix of the series, resolve the goal -/
+def plan (cfg : Cfg) (fs : FS) : Plan :=
+  match fs.readFile seriesKey with
+  | .error _ => .refuse
   | .ok (sbytes, _) =>
     match Series.readSeries sbytes with
-    | .error _ => (.error, w)
+    | .error _ => .refuse
     | .ok series =>
-      let firstE : Except Unit Nat :=
-        match w.fs.readFile appliedKey with
-        | .error _ => .ok 0
-        | .ok (abytes, _) =>
-          match Series.readSeries abytes with
-          | .error _ => .ok 0
-          | .ok applied =>
-            if namesMismatch series applied then .error ()
-            else if applied.length > series.length then .error ()
-            else .ok applied.length
-      match firstE with
-      | .error _ => (.error, w)
-      | .ok first =>
-        let lastE : Except Unit Nat := match cfg.goal with
-          | .all => .ok series.length
-          | .count n => .ok (min (first + n) series.length)
+      let applied : List Series.Entry := match fs.readFile appliedKey with
+        | .error _ => []
+        | .ok (abytes, _) => (match Series.readSeries abytes with | .ok a => a | .error _ => [])
+      if namesMismatch series applied then .refuse
+      else if applied.length > series.length then .refuse
+      else
+        let first := applied.length
+        let last? : Option Nat := match cfg.goal with
+          | .all => some series.length
+          | .count n => some (min (first + n) series.length)
           | .upTo name =>
             match series.findIdx? (fun e => components e.name == components name) with
-            | some i => if i < first then .error () else .ok (i + 1)
-            | none => .error ()
-        match lastE with
-        | .error _ => (.error, w)
-        | .ok last =>
-          if first == series.length then (.allApplied, w)
-          else
-            let range := (series.drop first).take (last - first)
-            match applyPatches w cfg range with
-            | .error (.err, w') => (.error, w')
-            | .error (.panic, w') => (.panic, w')
-            | .ok (w', final) =>
-              if cfg.dryRun then (if final == range.length then .allApplied else .notAll, w')
-              else match saveApplied w' ((range.take final).map (·.name)) with
-                | .error (_, w'') => (.error, w'')
-                | .ok w'' => (if final == range.length then .allApplied else .notAll, w'')
+            | some i => if i < first then none else some (i + 1)
+            | none => none
+        match last? with
+        | none => .refuse
+        | some last =>
+          if first == series.length then .nothingToDo
+          else .apply ((series.drop first).take (last - first))
+
+/-- the second part of `cmd_push`: apply the range, then record the applied patches -/
+def pushRange (cfg : Cfg) (w : World) (range : List Series.Entry) : Outcome × World :=
+  match applyPatches w cfg range with
+  | .error (.err, w') => (.error, w')
+  | .error (.panic, w') => (.panic, w')
+  | .ok (w', final) =>
+    if cfg.dryRun then (if final == range.length then .allApplied else .notAll, w')
+    else match saveApplied w' ((range.take final).map (·.name)) with
+      | .error (_, w'') => (.error, w'')
+      | .ok w'' => (if final == range.length then .allApplied else .notAll, w'')
+
+/-- `cmd_push` with the single-threaded driver -/
+def push (cfg : Cfg) (w : World) : Outcome × World :=
+  match plan cfg w.fs with
+  | .refuse => (.error, w)
+  | .nothingToDo => (.allApplied, w)
+  | .apply range => pushRange cfg w range
 
 end RQ.Push
